@@ -249,3 +249,7 @@ mod tests {
         assert!(needed.contains(&Permission::Archive));
     }
 }
+
+#[cfg(kani)]
+#[path = "/verif/harness/anda_cognitive_nexus/governance_gate.rs"]
+mod verif_kani;
